@@ -230,6 +230,8 @@ def run_check(pid: str, tier: str, seed: int, nshards: int) -> int:
         f"[{pid} {tier} seed={seed}] cases={evaluations}/{planned} distinct_nontrivial={len(sigs)} "
         f"verdicts={dict(verdicts)} wall={wall:.1f}s"
     )
+    slow = sorted(((r.get("t", 0), json.dumps(r.get("sig"), default=str)[:160]) for r in records if r.get("kind") != "meta"), reverse=True)[:3]
+    print("  slowest cases:", "; ".join(f"{t:.1f}s {s}" for t, s in slow))
     interesting = {k: v for k, v in counters.items() if not k.startswith("_")}
     print("  observed:", json.dumps(dict(sorted(interesting.items()))))
     for fid, n in Counter(k.get("finding") for k in knowns).items():
